@@ -133,18 +133,33 @@ class DelayChooser:
 
     kind = 'delay'
 
-    def __init__(self, node, after):
+    WHAT = {'body': ('gate', 'exec'), 'ev': ('ev',), 'save': ('save',), 'collab': ('ev', 'save'),
+            'any': ('gate', 'exec', 'ev', 'save')}
+
+    def __init__(self, node, after, what='body'):
         self.node = node
         self.after = after
-        self.count = 0
+        self.kinds = self.WHAT[what]   # which completions of the node are withheld: its body, or the event
+        self.count = 0                 # callbacks / artifact saves that collaborators run on its behalf
         self.log = []
+
+    def _held(self, label):
+        if not (isinstance(label, tuple) and len(label) > 2):
+            return False
+        if label[0] in ('ev', 'save'):
+            if label[0] not in self.kinds:
+                return False
+        elif 'gate' not in self.kinds:
+            return False
+        who = label[2]
+        return who == self.node or (isinstance(who, str) and who.endswith('__' + self.node))
 
     def choose(self, loop, blocking):
         if not blocking:
             return True
         held = None
         for i, (label, _) in enumerate(loop.pending):
-            is_held = isinstance(label, tuple) and len(label) > 2 and label[2] == self.node
+            is_held = self._held(label)
             if is_held and self.count < self.after:
                 if held is None:
                     held = i
